@@ -15,7 +15,12 @@ RULE = ('generated dense dataset directories loaded through TemplateModel: integ
         'fewer ids in use than max id + 1) and uncurated spike clusters; '
         'unit factors {1, 2, 0.5, 2.5}; rates {100, 1000, 25000, 30000}; feature stores full / subset / absent with '
         'rows whose positive part vanishes or sums to a power of two or neither; per-id amplitude sums divisible by the counts '
-        'or not; peak-to-peak ties between channels and extreme-value ties between samples. '
+        'or not; peak-to-peak ties between channels and extreme-value ties between samples; '
+        'configurations: extra constructor keywords of TemplateModel (template_scaling absent / 1 / other positive and negative values; '
+        'n_closest_channels and amplitude_threshold on uncurated datasets); '
+        'histories on ONE loaded model: model.spike_clusters (and model.amplitudes) updated by the caller in memory - in place, through a '
+        'boolean mask, or by re-assigning the attribute with another integer dtype - by merges / splits / moves / gaps / renumberings / undo, '
+        'templates_amplitudes and clusters_amplitudes read after every update. '
         'Corpus and axis product first, then seeded random. Non-trivial = the dataset loads and both '
         'get_amplitudes_true calls return; distinct = distinct abstract dataset (+ factor).')
 EXHAUSTIVE = {'quick': False, 'thorough': False}
@@ -47,12 +52,31 @@ FACTORS = [1.0, 2.0, 0.5, 2.5]
 RATES = [100, 1000, 25000, 30000]
 EMPTY = ['none', 'start', 'middle', 'end', 'ends', 'tail2', 'most']
 ID_DTYPES = ['uint32', 'int32', 'int64', 'uint16']
+# configurations: extra keywords of the constructor (TemplateModel.__init__ copies every keyword into the instance; a
+# params.py may set the same names).  template_scaling is a display scaling read by _unwhiten (get_template): no value
+# of it may reach the summaries of C09.  n_closest_channels / amplitude_threshold steer _find_best_channels, which the
+# cluster waveforms of a CURATED dataset go through (C08's ground): drawn on uncurated datasets only.
+SCALINGS = [2.5, 0.5, 3.0, 10.0, -1.0, 1.0, 0.0]
+
+
+def _config(rng, curated, force=None):
+    if force is not None:
+        return dict(force)
+    c = {}
+    if rng.random() < 0.3:
+        c['template_scaling'] = rng.choice(SCALINGS)
+    if not curated and rng.random() < 0.15:
+        c['n_closest_channels'] = rng.choice([1, 2, 3, 12, 40])
+    if not curated and rng.random() < 0.1:
+        c['amplitude_threshold'] = rng.choice([0, 0.5, 1.0])
+    return c
 
 
 def _case(rng, **o):
     sem = G.gen(rng, **o)
     return {'kind': 'dataset', 'inp': {
         'sem': sem, 'factor': o.get('factor', rng.choice(FACTORS)),
+        'config': _config(rng, sem['opts']['curated'], o.get('config')),
         'render': {'id_dtype': o.get('id_dtype', rng.choice(ID_DTYPES)),
                    'tmpl_dtype': o.get('tmpl_dtype', rng.choice(['float32', 'float32', 'float64'])),
                    'vec2d': o.get('vec2d', rng.random() < 0.2)},
@@ -93,6 +117,43 @@ def _big(rng, n):
                                                                        'vec2d': False}}}
 
 
+HIST_OPS = ['merge', 'split', 'move', 'gap', 'renumber', 'undo', 'amps']
+
+
+def _hist(rng, ops=None, modes=None, **o):
+    """a history on one loaded model: after loading, the caller updates model.spike_clusters (and / or model.amplitudes)
+    in memory, 1-4 times; every step gives the FULL new arrays and how they are put into the model:
+    'inplace' (sc[:] = new), 'mask' (sc[np.isin(sc, olds)] = new id, one id pair at a time, as phy's merge does),
+    'assign' (model.spike_clusters = a new array of the drawn integer dtype)."""
+    o.setdefault('features', 'none')
+    sem = G.gen(rng, **o)
+    n = sem['n_spikes']
+    sc = list(sem['spike_clusters'] if sem.get('spike_clusters') is not None else sem['spike_templates'])
+    amps = list(sem['amplitudes'])
+    if ops is None:
+        ops = [rng.choice(HIST_OPS) for _ in range(rng.randint(1, 4))]
+    steps = []
+    for k, op in enumerate(ops):
+        new_amps = None
+        if op == 'undo':
+            new = list(sem['spike_templates'])
+            if new == sc:
+                new = G.curate(rng, sc, ops=['renumber'])
+        elif op == 'amps':
+            new = list(sc)
+            new_amps = [float(rng.randint(-2, 9)) for _ in range(n)]
+        else:
+            new = G.curate(rng, sc, ops=[op])
+        mode = modes[k] if modes else rng.choice(['inplace', 'mask', 'assign'])
+        steps.append({'mode': mode, 'sc': new, 'amps': new_amps, 'dtype': rng.choice(ID_DTYPES + ['int16', 'uint8', 'int32']),
+                      'amps_mode': rng.choice(['inplace', 'assign'])})
+        sc = new
+        if new_amps is not None:
+            amps = new_amps
+    return {'kind': 'history', 'inp': {'sem': sem, 'steps': steps, 'config': _config(rng, sem['opts']['curated'], o.get('config')),
+                                       'render': {'id_dtype': rng.choice(ID_DTYPES), 'tmpl_dtype': 'float32', 'vec2d': False}}}
+
+
 def _tile(sem, n):
     """the periodic dataset of n spikes"""
     k = sem['n_spikes']
@@ -111,6 +172,17 @@ def _tile(sem, n):
 def generate(tier, rng):
     cases = []
     # corpus ---------------------------------------------------------------------------------------------
+    # (-2) configurations (stage 6): the rarely used constructor keyword template_scaling (display scaling of
+    # get_template) set to a value != 1 -- the summaries of C09 do not depend on it
+    for ts in (2.5, 0.5):
+        for cur in (False, True):
+            cases.append(_case(rng, curated=cur, empty='none', config={'template_scaling': ts}))
+    # (-1) histories (stage 6): model.spike_clusters updated in memory after loading -- a merge through a boolean mask,
+    # a split by re-assigning the attribute, a renumbering in place; the set of ids in use changes every time
+    for ops, modes in [(['merge'], ['mask']), (['split'], ['assign']), (['renumber'], ['inplace']),
+                       (['merge', 'split', 'undo'], ['mask', 'assign', 'inplace']), (['amps', 'move'], ['assign', 'mask'])]:
+        for cur in (False, True):
+            cases.append(_hist(rng, ops=ops, modes=modes, curated=cur, empty='none', nt=4, nspk=10))
     # (0) curated cluster ids with an id WITHOUT spikes below the highest id in use (number of ids in use <
     # max id + 1 = number of cluster waveforms): a whole cluster renumbered to a fresh id (what every merge / split
     # in phy does), alone and combined with the other curation steps and with empty template ids
@@ -153,6 +225,8 @@ def generate(tier, rng):
                     cases.append(_case(rng, rate=r, features=fk, wmi=w))
     for _ in range(n_rand):
         cases.append(_case(rng))
+    for _ in range(n_rand // 4):
+        cases.append(_hist(rng))
     if tier != 'quick':
         for _ in range(n_rand // 10):
             cases.append(_case(rng, nc=rng.randint(4, 7), nt=rng.randint(4, 8), nsw=rng.randint(4, 9), curated=False,
@@ -186,12 +260,15 @@ def run_case(case):
         return _run_big(case)
     if case['kind'] == 'sparse':
         return _run_sparse(case)
+    if case['kind'] == 'history':
+        return _run_hist(case)
     ds = D.render(i['sem'], None, **i['render'])
     if i.get('no_ind'):
         del ds['files']['pc_feature_ind.npy']
     d = tempfile.mkdtemp(prefix='c09_', dir=os.environ.get('VT_WORK') or None)
     try:
         kw = D.materialise(ds, d)
+        kw.update(i.get('config') or {})
         m = TemplateModel(**kw)
         sf = m.sparse_features
         snap = {
@@ -226,6 +303,52 @@ def run_case(case):
         }
         m.close()
         return ('ok', snap, obs)
+    finally:
+        shutil.rmtree(d, ignore_errors=True)
+
+
+def _run_hist(case):
+    import numpy as np
+    from phylib.io.model import TemplateModel
+    i = case['inp']
+    ds = D.render(i['sem'], None, **i['render'])
+    d = tempfile.mkdtemp(prefix='c09h_', dir=os.environ.get('VT_WORK') or None)
+    try:
+        kw = D.materialise(ds, d)
+        kw.update(i.get('config') or {})
+        m = TemplateModel(**kw)
+
+        def look():
+            with np.errstate(all='ignore'):
+                return {'mean_t': _try(lambda: _toks(m.templates_amplitudes)), 'mean_c': _try(lambda: _toks(m.clusters_amplitudes)),
+                        # what the model holds now (must be what the caller put there: checked by encode)
+                        'sc': [int(x) for x in m.spike_clusters], 'st': [int(x) for x in m.spike_templates],
+                        'amps': _toks(np.array(m.amplitudes))}
+        states = [look()]
+        for step in i['steps']:
+            new = np.array(step['sc'])
+            if step['mode'] == 'assign':
+                m.spike_clusters = new.astype(step['dtype'])
+            elif step['mode'] == 'mask':
+                sc = m.spike_clusters
+                old = sc.copy()
+                for a in np.unique(old):          # every old id whose spikes all go to one new id: through a mask
+                    tgt = np.unique(new[old == a])
+                    if len(tgt) == 1:
+                        sc[np.isin(old, [a])] = tgt[0]
+                    else:
+                        sc[old == a] = new[old == a]
+            else:
+                m.spike_clusters[:] = new
+            if step.get('amps') is not None:
+                a = np.array(step['amps'], dtype=np.float64)
+                if step.get('amps_mode') == 'inplace' and m.amplitudes.flags.writeable:
+                    m.amplitudes[:] = a
+                else:
+                    m.amplitudes = a
+            states.append(look())
+        m.close()
+        return ('hist', {}, {'states': states})
     finally:
         shutil.rmtree(d, ignore_errors=True)
 
@@ -363,6 +486,27 @@ def encode(case, obs):
             s['wmi'] = [[D.tok(float(v)) for v in row] for row in sem['wmi']]
         elif sem.get('wm') is None:
             s['wmi'] = [[D.tok(1.0 if r == c else 0.0) for c in range(nc)] for r in range(nc)]
+    if obs[0] == 'hist':
+        sem = case['inp']['sem']
+        st = [int(x) for x in sem['spike_templates']]
+        sc = [int(x) for x in (sem['spike_clusters'] if sem.get('spike_clusters') is not None else sem['spike_templates'])]
+        amps = [float(a) for a in sem['amplitudes']]
+        want = [(sc, amps)]
+        for step in case['inp']['steps']:
+            sc = [int(x) for x in step['sc']]
+            if step.get('amps') is not None:
+                amps = [float(a) for a in step['amps']]
+            want.append((sc, amps))
+        got = o['states']
+        if len(got) != len(want):
+            raise ValueError('C09 history: %d states observed, %d expected' % (len(got), len(want)))
+        for (wsc, wam), g in zip(want, got):
+            # the harness's own updates took effect (a caller-side matter, not phylib's)
+            if g['sc'] != wsc or g['st'] != st or [tuple(x) for x in g['amps']] != [tuple(D.tok(a)) for a in wam]:
+                raise ValueError('C09 history: the in-memory update did not produce the intended arrays')
+        cin = '(InHist %s %s)' % (q.zl(st), q.lst(want, lambda w: '(%s, %s)' % (q.zl(w[0]), _zl([D.tok(a) for a in w[1]]))))
+        cobs = '(ObsHist %s)' % q.lst(got, lambda g: '(%s, %s)' % (_opt(g['mean_t'], _tl), _opt(g['mean_c'], _tl)))
+        return cin, cobs
     if obs[0] == 'big':
         if not s['periodic']:
             raise ValueError('C09 regime: the tiled dataset did not load as a periodic one')
@@ -417,6 +561,8 @@ def nontrivial(case, obs):
         return not _raised(obs[2]['depths']) and obs[2]['depths'] is not None
     if obs[0] == 'sparse':
         return not _raised(obs[2]['chan_t'])
+    if obs[0] == 'hist':
+        return all(not _raised(g['mean_c']) and not _raised(g['mean_t']) for g in obs[2]['states'])
     return obs[0] == 'ok' and not _raised(obs[2]['amp_t']) and not _raised(obs[2]['amp_c'])
 
 
@@ -429,8 +575,27 @@ def dist(case, obs):
     if case['kind'] == 'sparse':
         return ['kind=sparse_templates', 'sparse.outcome=%s' % (obs[0] if obs[0] != 'sparse' else
                                                                  'amp_raised=%s' % _raised(obs[2]['amp_t']))]
+    cfg = i.get('config') or {}
+    if case['kind'] == 'history':
+        o = sem['opts']
+        out = ['kind=history', 'hist.curated_on_disk=%s' % o['curated'], 'hist.steps=%d' % len(i['steps']),
+               'hist.template_scaling=%s' % cfg.get('template_scaling', 'absent')]
+        prev = set(sem['spike_clusters'] if sem.get('spike_clusters') is not None else sem['spike_templates'])
+        for k, step in enumerate(i['steps']):
+            cur = set(step['sc'])
+            out.append('hist.step=%s:%s:%s' % (step['mode'], 'amps' if step.get('amps') is not None else 'ids',
+                                               'same_ids' if cur == prev else
+                                               ('new' if cur - prev else '') + ('gone' if prev - cur else '')))
+            if step['mode'] == 'assign':
+                out.append('hist.assign_dtype=%s' % step['dtype'])
+            prev = cur
+        out.append('hist.outcome=%s' % (obs[0] if obs[0] != 'hist' else
+                                        'raised' if any(_raised(g['mean_c']) for g in obs[2]['states']) else 'arrays'))
+        return out
     o = sem['opts']
-    out = ['curated=%s' % o['curated'], 'feature_ind=%s' % ('absent' if i.get('no_ind') else 'present' if sem['features'] else 'n/a'), 'empty_ids=%s' % o['empty'], 'wmi=%s' % o['wmi'], 'features=%s' % o['features'],
+    out = ['curated=%s' % o['curated'], 'template_scaling=%s' % cfg.get('template_scaling', 'absent'),
+           'n_closest_channels=%s' % cfg.get('n_closest_channels', 'default'),
+           'amplitude_threshold=%s' % cfg.get('amplitude_threshold', 'default'), 'feature_ind=%s' % ('absent' if i.get('no_ind') else 'present' if sem['features'] else 'n/a'), 'empty_ids=%s' % o['empty'], 'wmi=%s' % o['wmi'], 'features=%s' % o['features'],
            'ties=%s' % o['ties'], 'factor=%s' % i['factor'], 'rate=%s' % int(sem['rate']),
            'id_dtype=%s' % i['render']['id_dtype'], 'tmpl_dtype=%s' % i['render']['tmpl_dtype'],
            'n_spikes=%s' % ('<=5' if sem['n_spikes'] <= 5 else '6-14' if sem['n_spikes'] <= 14 else '15+')]
@@ -464,7 +629,14 @@ def shrink(case):
     i = case['inp']
     if case['kind'] in ('depths_big', 'sparse'):
         return
+    if case['kind'] == 'history':
+        yield from _shrink_hist(case)
+        return
     sem = i['sem']
+    for key in sorted(i.get('config') or {}):
+        j = copy.deepcopy(i)
+        del j['config'][key]
+        yield {'kind': 'dataset', 'inp': j}
     for k in range(sem['n_spikes']):
         s = G.drop_spike(sem, k)
         if s is not None:
@@ -494,14 +666,53 @@ def shrink(case):
         yield {'kind': 'dataset', 'inp': j}
 
 
+def _shrink_hist(case):
+    i = case['inp']
+    steps = i['steps']
+    # fewer steps: drop the last, drop one in the middle (every step carries the full arrays, so any subsequence is a history)
+    for k in reversed(range(len(steps))):
+        if len(steps) > 1:
+            j = copy.deepcopy(i)
+            del j['steps'][k]
+            yield {'kind': 'history', 'inp': j}
+    for key in sorted(i.get('config') or {}):
+        j = copy.deepcopy(i)
+        del j['config'][key]
+        yield {'kind': 'history', 'inp': j}
+    sem = i['sem']
+    for k in range(sem['n_spikes']):
+        s = G.drop_spike(sem, k)
+        if s is not None:
+            j = copy.deepcopy(i)
+            j['sem'] = s
+            for step in j['steps']:
+                del step['sc'][k]
+                if step.get('amps') is not None:
+                    del step['amps'][k]
+            yield {'kind': 'history', 'inp': j}
+    for k, step in enumerate(steps):
+        if step['mode'] != 'inplace':
+            j = copy.deepcopy(i)
+            j['steps'][k]['mode'] = 'inplace'
+            yield {'kind': 'history', 'inp': j}
+        if step.get('amps') is not None:
+            j = copy.deepcopy(i)
+            j['steps'][k]['amps'] = None
+            yield {'kind': 'history', 'inp': j}
+
+
 def size(case):
     if case['kind'] == 'depths_big':
         return 10 ** 6 + case['inp']['n']
     sem = case['inp']['sem']
+    if case['kind'] == 'history':
+        return 200 + sem['n_spikes'] * 10 * (1 + len(case['inp']['steps'])) + sum(
+            (3 if st['mode'] != 'inplace' else 0) + (5 if st.get('amps') is not None else 0) for st in case['inp']['steps']) + \
+            5 * len(case['inp'].get('config') or {})
     if case['kind'] == 'sparse':
         return 500 + sem['n_spikes'] * 10 + sem['n_templates'] * sem['n_channels']
     return sem['n_spikes'] * 10 + sem['n_templates'] * sem['n_samples_wf'] * sem['n_channels'] + \
-        (50 if sem.get('features') else 0) + (30 if sem.get('spike_clusters') else 0)
+        (50 if sem.get('features') else 0) + (30 if sem.get('spike_clusters') else 0) + 5 * len(case['inp'].get('config') or {})
 
 
 def repro(case):
@@ -519,13 +730,23 @@ def repro(case):
                 "from vt.props import c09\n"
                 "tag, snap, obs = c09.run_case(%r)\n"
                 "print('template_ind', snap['cols']); print(obs)\n" % (case,))
+    if case['kind'] == 'history':
+        return ("import sys; sys.path[:0] = ['/verif/harness', '/repo']\n"
+                "from vt import npshim; npshim.setup_process()\n"
+                "from vt.props import c09\n"
+                "case = %r\n"
+                "tag, snap, obs = c09.run_case(case)   # loads the dataset with TemplateModel(**kw, **config), then applies case['inp']['steps'] to model.spike_clusters / model.amplitudes in memory\n"
+                "for k, g in enumerate(obs['states']):\n"
+                "    print('state', k, 'spike_clusters', g['sc'], 'amplitudes (exact tokens)', g['amps'])\n"
+                "    print('   templates_amplitudes', g['mean_t']); print('   clusters_amplitudes ', g['mean_c'], ' <- must be the mean amplitude of every id present in spike_clusters NOW')\n"
+                % (case,))
     return ("import sys, tempfile; sys.path[:0] = ['/verif/harness', '/repo']\n"
             "from vt import npshim, datasets as D; npshim.setup_process()\n"
             "from phylib.io.model import TemplateModel\n"
             "inp = %r\n"
             "ds = D.render(inp['sem'], None, **inp['render'])\n"
             "if inp.get('no_ind'): del ds['files']['pc_feature_ind.npy']\n"
-            "d = tempfile.mkdtemp(); m = TemplateModel(**D.materialise(ds, d))\n"
+            "d = tempfile.mkdtemp(); m = TemplateModel(**dict(D.materialise(ds, d), **(inp.get('config') or {})))\n"
             "print('spike_templates', m.spike_templates, 'spike_clusters', m.spike_clusters, 'amplitudes', m.amplitudes)\n"
             "for use in ('templates', 'clusters'):\n"
             "    a, t, v = m.get_amplitudes_true(inp['factor'], use=use); print(use, 'spike amps', a, 'template amps', v); print(t)\n"
